@@ -193,8 +193,12 @@ def _neutral_edits(report, sc, ybin, inproc, name, g, pkg, base, rng, quick, see
     p = copy.deepcopy(pkg)
     p.block, p.comment_lines = True, "doc"
     edits.append(("comments-everywhere", p))
+    for k, prob in enumerate((0.5, 0.3, 0.15) if name == "directed" or not quick else (0.4,)):
+        p = copy.deepcopy(pkg)
+        p.block, p.comment_lines = True, ("doc", prob, seed * 31 + k)
+        edits.append(("comments-on-some-nodes", p))
     for ename, p2 in edits:
-        root = sc.path(f"{name}-{ename}")
+        root = sc.path(f"{name}-{ename}-{edits.index((ename, p2))}")
         exp = 0.9 if ename == "spelling" else 0.25
         s2, err, d = schemas_of(root, p2, ybin, inproc, random.Random(seed + 99), report, ename, matlab=False, expanded_p=exp)
         report.case(distinct_key=(name, "neutral", ename))
